@@ -1,6 +1,7 @@
 package eventbus
 
 import (
+	"math"
 	"context"
 	"sync"
 	"time"
@@ -63,7 +64,7 @@ func (o *c20Obs) OnPersistComplete(ctx context.Context, d time.Duration, err err
 	o.done(ctx, 6, err)
 }
 
-//verif:entry property=C20 tier=both bounds="n<=N handlers each with arbitrary Once/Async/filter(reject)/panics flags; P publishes each with live or already-cancelled context; persistence absent / succeeding / failing per publish, with or without a persistence timeout" cover="checked" N_quick=2 N_thorough=3 P_quick=2 P_thorough=2
+//verif:entry property=C20 tier=both bounds="n<=N handlers each with arbitrary Once/Async/filter(reject)/panics flags; P publishes each with live or already-cancelled context; persistence absent / succeeding / failing / event not encodable per publish, with or without a persistence timeout" cover="checked" N_quick=2 N_thorough=3 P_quick=2 P_thorough=2
 func harnessC20BusLevel() {
 	N, P := vParam("N", 2), vParam("P", 2)
 	obs := &c20Obs{}
@@ -123,6 +124,12 @@ func harnessC20BusLevel() {
 			c, cancel := context.WithCancel(ctx)
 			cancel()
 			ctx = c
+		}
+		if persist && vBool() {
+			// an event without a JSON encoding: nothing is handed to the store, so there is
+			// no append attempt (and no handler: nobody subscribes to this type)
+			PublishContext(bus, ctx, evF{N: p, F: math.NaN()})
+			continue
 		}
 		if persist {
 			out := vInt(0, 1)
